@@ -292,14 +292,14 @@ def cross_case(ctx, case):
 def blocks(tier, seed):
     q = tier == 'quick'
     tg = [(k, s, c) for k in KINDS for s in ('receiver', 'refund', 'outsider') for c in ('right', 'wrong', 'filler')]
-    lens = list(range(1, 65)) if not q else [1, 2, 15, 16, 17, 31, 32, 33, 63, 64]
+    lens = list(range(1, 65))
     pl = [(k, ln) for k in KINDS[:4] for ln in lens]
     fl = [(k, f, a) for k in KINDS for f, a in (('00', '00'), ('01', '01'), ('01', '00'), ('80', '81'), ('81', '80'), ('00', 'ff'))]
     cr = [(k, w) for k in KINDS for w in ('htlc', 'htlc2', 'ptlc', 'ptlc_tweaked', 'ptlc_refund')]
     return [
         Block('time_grid', tg, time_grid, 'lock kind x signer x preimage choice x timeout {0,1,86400} x t=deadline-1..+1 x t-now=59..61', nshards=len(tg)),
         Block('preimage_lengths', pl, preimage_lengths, 'preimage lengths %s x right/wrong x signer; SHAKE digest sizes 1,16,20,32,64' %
-              ('1..64' if not q else lens), nshards=min(len(pl), 128)),
+              ('1..64'), nshards=min(len(pl), 128)),
         Block('ptlc_tweak_scalars', tweak_scalars(seed), ptlc_tweaks, 'tweak scalars {1, L-1, clamped, unclamped, 2^254+} x witness kinds x signers', nshards=5),
         Block('sigflags_and_fields', fl, flags_case, 'flag/allowed pairs x covered / excluded field changes, both paths', nshards=len(fl)),
         Block('cross_pairings', cr, cross_case, 'all witness kinds x all lock kinds x signers x preimage choices', nshards=len(cr)),
@@ -312,6 +312,6 @@ def meta(tier, seed):
         rule='complete grids executed through the real builders and run_auth_scripts; virtual clock = T0 at build time (deadline = T0 + '
              'timeout) and moved before the run; model from the statement + ref.refvm on the same bytes',
         states_meaning='distinct grid points; transitions = scripts run',
-        bounds={'preimage_lengths': '1..64' if tier != 'quick' else 'boundary set', 'timeouts': [0, 1, 86400], 'slack_threshold': THR},
+        bounds={'preimage_lengths': '1..64', 'timeouts': [0, 1, 86400], 'slack_threshold': THR},
         assumptions=['tweak scalars are valid 255-bit scalars (bit 255 clear)', 'hash preimage resistance / Ed25519 hardness for rejections'],
     )
